@@ -5,6 +5,25 @@ import json, os, subprocess
 ROOT = os.path.dirname(os.path.dirname(os.path.abspath(__file__)))
 
 CLAIMED = {
+ "C10": dict(
+   text="The host/container RPC as one labelled transition system in Coq (host call automaton, container server automaton, one FIFO per "
+        "direction, the two done flags, ghost call tags on every message; environment: the class of every Execve — refused before fork, empty "
+        "argv, failing before sync, exec failing after the acknowledged sync, running — sync before/after exec, callback outcome, program exit, "
+        "cancellation, loss of the transport at any moment).  Theorems for EVERY reachable state, i.e. histories of any length and every "
+        "interleaving, by reflection (a candidate state set of 3252 states is re-validated by a verified closure check, closed_sound): "
+        "C10_no_desync (no reply consumed by another call or in a state that does not expect it; no command interpreted in the wrong state), "
+        "C10_container_survives (the container ends only when the environment took the transport away), C10_quiescent_at_return (at every return "
+        "no reply is left over and the container serves or will after the one kill the host owed it, whatever the failure class), "
+        "C10_transport_loss_fails_fast (rank check: the call in flight returns within three host steps; later calls fail at once).  The two "
+        "defects of the pinned tree are theorems about the unfixed variant and were repaired by fix: commits; the oversize request is a known "
+        "finding.  Tie on every run: 40 (thorough 400) random histories of up to 30 calls on a real environment with every failure class; the "
+        "wire-level logs of BOTH endpoints (verif-tagged hooks) are replayed in Coq against host_steps / cont_steps themselves; every answer "
+        "is checked against its call's class; Ping and Execve(/bin/true) after every history; a per-call watchdog.",
+   note="Trusted: Coq kernel + vm_compute; FIFO delivery (SK1) and the capacity-1 channels abstracted to one queue per direction; Go's select "
+        "as nondeterministic choice; the injective state code (Base/Code.v, proved prefix free).  Open/Delete/Symlink/Reset/Ping are one "
+        "'simple call' kind in the LTS (their payloads are C14's subject).",
+   technique="Coq proof by reflection over a finite LTS (verified closure + ranking checks lifted by closed_sound) + replay of both endpoints' wire logs through the LTS step functions",
+   design="§5 C10, Appendix B"),
  "C19": dict(
    text="Theorems in Coq: C19_oob_roundtrip — a byte-level model of the control data (cmsghdr, 8-byte alignment, SCM_RIGHTS / SCM_CREDENTIALS as "
         "syscall.UnixRights/UnixCredentials produce them; ParseSocketControlMessage + parseMsg) round-trips for EVERY descriptor list and credential "
